@@ -230,6 +230,8 @@ class Interp:
                 res = 1
             elif x.hi < y.lo or y.hi < x.lo:
                 res = 0
+            elif (x.tag == ("neq",) and self.exact(y) and y.aff == (1, 0)) or (y.tag == ("neq",) and self.exact(x) and x.aff == (1, 0)):
+                res = 0             # a value introduced as "different from the cell variable" (relational split of a comparison)
             elif self.exact(x) and self.exact(y):
                 # a*y+b == c*y+d on the whole cell only if identical; otherwise at most one point
                 if x.aff == y.aff:
@@ -1115,8 +1117,9 @@ class Interp:
         if name in ("std::cmp::PartialEq::eq", "std::cmp::PartialEq::ne") and len(args) == 2:
             vs = []
             for a in args:
-                if isinstance(a, Ref):
-                    a = self.project(a.frame, a.frame.locals.get(a.local), a.proj)
+                for _ in range(4):          # `&&usize == &&usize` compares the referents
+                    if isinstance(a, Ref):
+                        a = self.project(a.frame, a.frame.locals.get(a.local), a.proj)
                 vs.append(a)
             if all(isinstance(v, Opaque) and isinstance(v.what, tuple) and v.what[0] == "typeid" for v in vs):
                 known = all(isinstance(v.what[1], str) and "::" in v.what[1] for v in vs)
